@@ -1038,6 +1038,23 @@ impl<'a> Iterator for SelectorIter<'a> {
                             } else {
                                 let result = self.get_internal_ranged_item(self.selector);
                                 self.cursor_in_range += 1;
+                                if self.recurse_annotation {
+                                    //follow the annotation just like a plain AnnotationSelector would
+                                    if let Selector::AnnotationSelector(a_handle, _) = result.as_ref() {
+                                        let annotation: &Annotation = self
+                                            .store
+                                            .get(*a_handle)
+                                            .expect("referenced annotation must exist");
+                                        self.subiterstack.push(SelectorIter {
+                                            selector: annotation.target(),
+                                            subiterstack: Vec::new(),
+                                            cursor_in_range: 0,
+                                            recurse_annotation: self.recurse_annotation,
+                                            store: self.store,
+                                            done: false,
+                                        });
+                                    }
+                                }
                                 return Some(result);
                             }
                         }
@@ -1068,10 +1085,10 @@ impl<'a> Iterator for SelectorIter<'a> {
                 let result = self.subiterstack.last_mut().unwrap().next();
                 if result.is_none() {
                     self.subiterstack.pop();
-                    if self.subiterstack.is_empty() {
+                    if self.subiterstack.is_empty() && self.done {
                         return None;
                     } else {
-                        continue; //recursion
+                        continue; //recursion (or the next item of an internal ranged selector)
                     }
                 } else {
                     return result;
